@@ -5,6 +5,7 @@ import z3, math
 from fractions import Fraction
 
 RTOL = 1e-9
+ATOL = [1e-300]     # absolute tolerance = RTOL * (largest input magnitude of the replayed case), set by the replay
 
 
 class NotGround(Exception):
@@ -12,7 +13,7 @@ class NotGround(Exception):
 
 
 def _close(a, b):
-    return abs(a - b) <= RTOL * max(abs(a), abs(b)) + 1e-300
+    return abs(a - b) <= RTOL * max(abs(a), abs(b)) + ATOL[0]
 
 
 def teval(e, env=None):
@@ -129,8 +130,10 @@ def teval_strict(e, env=None):
         if isinstance(a[0], int) and isinstance(a[1], int):
             return {z3.Z3_OP_LE: a[0] <= a[1], z3.Z3_OP_GE: a[0] >= a[1], z3.Z3_OP_LT: a[0] < a[1],
                     z3.Z3_OP_GT: a[0] > a[1], z3.Z3_OP_EQ: a[0] == a[1]}[k]
+        if k == z3.Z3_OP_EQ:
+            return a[0] == a[1]
         if _close(a[0], a[1]):
-            return False if k != z3.Z3_OP_EQ else False
+            return False
         return {z3.Z3_OP_LE: a[0] <= a[1], z3.Z3_OP_GE: a[0] >= a[1], z3.Z3_OP_LT: a[0] < a[1],
-                z3.Z3_OP_GT: a[0] > a[1], z3.Z3_OP_EQ: False}[k]
+                z3.Z3_OP_GT: a[0] > a[1]}[k]
     return teval(e, env)
